@@ -41,7 +41,9 @@ TopologyStep ==
   /\ \A kind \in {"phi", "theta"} :
        \A a \in ObsAngles(kind) :
           IF a \in DocAngles(T) THEN TRUE
-          ELSE IF BothDecayFlip(T, a) THEN PrintT(<<"STAT", "both-decay-flip", 1>>)
+          \* (when both children of a node decay the pair gives the direction of the opposite-helicity child: since the
+          \* repair cf86eeb this is deterministic; the other child's direction is a different quantity under the same name)
+          ELSE IF BothDecayFlip(T, a) THEN Clause("angle-meaning-both-children-decay", FALSE, <<kind, a>>)
           ELSE Clause("angle-meaning", FALSE, <<kind, a>>)
   /\ Clause("mass-meaning", ObsMasses = DocMasses(T), <<ObsMasses, DocMasses(T)>>)
   \* naming functions are total on the edges of the topology and agree with Topo
